@@ -579,6 +579,71 @@ fn ror(value: il::Expression, shift: il::Expression) -> il::Expression {
     .unwrap()
 }
 
+/// Element width and element count of a whole-vector register operand
+/// (`v0.4s` is 4 elements of 32 bits). `None` for everything else.
+fn vector_arrangement(opr: &bad64::Operand) -> Option<(usize, usize)> {
+    let arrspec = match opr {
+        bad64::Operand::Reg {
+            arrspec: Some(arrspec),
+            ..
+        } if !is_arr_spec_indexed(arrspec) => arrspec,
+        _ => return None,
+    };
+    let (_, total_bits) = arr_spec_offset_width(arrspec);
+    let element_bits = match arrspec {
+        bad64::ArrSpec::Full(_) => total_bits,
+        bad64::ArrSpec::TwoDoubles(_) | bad64::ArrSpec::OneDouble(_) => 64,
+        bad64::ArrSpec::FourSingles(_)
+        | bad64::ArrSpec::TwoSingles(_)
+        | bad64::ArrSpec::OneSingle(_) => 32,
+        bad64::ArrSpec::EightHalves(_)
+        | bad64::ArrSpec::FourHalves(_)
+        | bad64::ArrSpec::TwoHalves(_)
+        | bad64::ArrSpec::OneHalf(_) => 16,
+        bad64::ArrSpec::SixteenBytes(_)
+        | bad64::ArrSpec::EightBytes(_)
+        | bad64::ArrSpec::FourBytes(_)
+        | bad64::ArrSpec::OneByte(_) => 8,
+    };
+    Some((element_bits, total_bits / element_bits))
+}
+
+/// Apply `op` to every element of two vectors of `elements` elements of
+/// `element_bits` bits each; no carry crosses an element boundary.
+fn elementwise(
+    lhs: il::Expression,
+    rhs: il::Expression,
+    element_bits: usize,
+    elements: usize,
+    op: fn(il::Expression, il::Expression) -> std::result::Result<il::Expression, crate::Error>,
+) -> il::Expression {
+    if elements <= 1 {
+        return op(lhs, rhs).unwrap();
+    }
+    let total_bits = lhs.bits();
+    let mut result: Option<il::Expression> = None;
+    for i in 0..elements {
+        let position = il::expr_const((i * element_bits) as u64, total_bits);
+        let element = |vector: &il::Expression| {
+            il::Expression::trun(
+                element_bits,
+                il::Expression::shr(vector.clone(), position.clone()).unwrap(),
+            )
+            .unwrap()
+        };
+        let value = il::Expression::shl(
+            il::Expression::zext(total_bits, op(element(&lhs), element(&rhs)).unwrap()).unwrap(),
+            position.clone(),
+        )
+        .unwrap();
+        result = Some(match result {
+            None => value,
+            Some(accumulated) => il::Expression::or(accumulated, value).unwrap(),
+        });
+    }
+    result.unwrap()
+}
+
 fn imm_to_u64(imm: &bad64::Imm) -> u64 {
     match *imm {
         bad64::Imm::Signed(x) => x as u64,
@@ -598,8 +663,13 @@ pub(super) fn add(
         let lhs = operand_load(block, &instruction.operands()[1], bits)?;
         let rhs = operand_load(block, &instruction.operands()[2], bits)?;
 
-        // perform operation
-        let src = il::Expression::add(lhs, rhs).unwrap();
+        // perform operation (per element for `add v0.4s, v1.4s, v2.4s`)
+        let src = match vector_arrangement(&instruction.operands()[0]) {
+            Some((element_bits, elements)) => {
+                elementwise(lhs, rhs, element_bits, elements, il::Expression::add)
+            }
+            None => il::Expression::add(lhs, rhs).unwrap(),
+        };
 
         // store result
         operand_store(block, &instruction.operands()[0], src)?;
@@ -1381,8 +1451,13 @@ pub(super) fn sub(
         let lhs = operand_load(block, &instruction.operands()[1], bits)?;
         let rhs = operand_load(block, &instruction.operands()[2], bits)?;
 
-        // perform operation
-        let src = il::Expression::sub(lhs, rhs).unwrap();
+        // perform operation (per element for `sub v0.4s, v1.4s, v2.4s`)
+        let src = match vector_arrangement(&instruction.operands()[0]) {
+            Some((element_bits, elements)) => {
+                elementwise(lhs, rhs, element_bits, elements, il::Expression::sub)
+            }
+            None => il::Expression::sub(lhs, rhs).unwrap(),
+        };
 
         // store result
         operand_store(block, &instruction.operands()[0], src)?;
